@@ -718,3 +718,154 @@ func (x *Exec) builtinCopy(st *State, c *ssa.CallCommon, args []Val) Val {
 	}
 	panic(unsupported("copy source"))
 }
+
+// refineAt: where a concrete value is converted to an interface whose methods have contracts, the
+// concrete methods' contracts must refine them (interface pre => implementation pre, implementation
+// post => interface post).  This is where contracts cross the edges that unit-test mocks cut.
+func (x *Exec) refineAt(st *State, ins *ssa.MakeInterface) {
+	it, ok := under(ins.Type()).(*types.Interface)
+	if !ok || it.NumMethods() == 0 {
+		return
+	}
+	if _, named := ins.Type().(*types.Named); !named {
+		return
+	}
+	T := ins.X.Type()
+	for i := 0; i < it.NumMethods(); i++ {
+		m := it.Method(i)
+		specI := x.P.ifaceSpec(ins.Type(), m)
+		if specI == nil {
+			continue
+		}
+		sel := x.P.SSA.MethodSets.MethodSet(T).Lookup(m.Pkg(), m.Name())
+		if sel == nil {
+			continue
+		}
+		fn := x.P.SSA.MethodValue(sel)
+		if fn == nil {
+			continue
+		}
+		specT := x.P.funcSpec(fn)
+		tag := fmt.Sprintf("refine:%s.%s<=%s", types.TypeString(ins.Type(), shortQual), m.Name(), fnShort(fn))
+		if x.refined[tag] {
+			continue
+		}
+		if x.refined == nil {
+			x.refined = map[string]bool{}
+		}
+		x.refined[tag] = true
+		if specT == nil {
+			if len(specI.Ensures) > 0 {
+				x.warn("%s: implementation has no contract (interface contract is assumed for it)", tag)
+				x.noImpl = append(x.noImpl, tag)
+			}
+			continue
+		}
+		x.refineMethod(st.clone(), tag, ins, fn, specI, specT)
+	}
+}
+
+func (x *Exec) refineMethod(st *State, tag string, ins *ssa.MakeInterface, fn *ssa.Function, specI, specT *FuncSpec) {
+	sig := fn.Signature
+	// fresh receiver and arguments
+	recvT := fn.Params[0].Type()
+	recv := x.freshVal(st, recvT, "impl")
+	if tv, ok := recv.(TV); ok && isPointer(recvT) {
+		st.assume(not(eq(tv.T, "0")))
+	}
+	args := []Val{recv}
+	for _, p := range fn.Params[1:] {
+		args = append(args, x.freshVal(st, p.Type(), "a."+p.Name()))
+	}
+	this := x.makeIface(st, recv, recvT, ins.Type())
+	// environments
+	nT := map[string]Val{}
+	for i, n := range x.specParamNames(specT, fn, sig, false) {
+		nT[n] = args[i]
+	}
+	isig := sig
+	nI := map[string]Val{}
+	inames := x.specParamNames(specI, nil, types.NewSignatureType(nil, nil, nil, isig.Params(), isig.Results(), isig.Variadic()), true)
+	iargs := append([]Val{this}, args[1:]...)
+	if len(inames) != len(iargs) {
+		panic(specErr{tag + ": parameter mismatch"})
+	}
+	for i, n := range inames {
+		nI[n] = iargs[i]
+	}
+	tctxI := x.P.typeCtxFor(specI, nil)
+	tctxT := x.P.typeCtxFor(specT, fn)
+	envI := &Env{x: x, st: st, names: nI, cur: st.H, old: st.H, tctx: tctxI, entryNames: nI, alloc: st.alloc}
+	for _, c := range specI.Requires {
+		st.assume(x.evalBool(envI, c.E))
+	}
+	envT := &Env{x: x, st: st, names: nT, cur: st.H, old: st.H, tctx: tctxT, entryNames: nT, alloc: st.alloc}
+	for _, c := range specT.Requires {
+		x.oblige(st, tag+":pre:"+c.Label, "refinement", c.Src, x.evalBool(envT, c.E))
+	}
+	old := st.H.copy()
+	allocBefore := st.alloc
+	w := x.freshInt("alloc")
+	st.assume(le(st.alloc, w))
+	st.alloc = w
+	// frame: the implementation may modify only what the interface contract allows
+	kI, kT := map[string]bool{}, map[string]bool{}
+	allI := false
+	for _, p := range specI.Modifies {
+		if p == "*" {
+			allI = true
+			continue
+		}
+		if strings.HasPrefix(p, "callback:") {
+			continue
+		}
+		for k := range x.patternKeys(p, tctxI) {
+			kI[k] = true
+		}
+	}
+	var extra []string
+	for _, p := range specT.Modifies {
+		if p == "*" || strings.HasPrefix(p, "callback:") {
+			continue
+		}
+		for k := range x.patternKeys(p, tctxT) {
+			kT[k] = true
+			if !kI[k] && !allI && (strings.HasPrefix(k, "G%world%")) {
+				extra = append(extra, k)
+			}
+		}
+	}
+	if len(extra) > 0 {
+		x.oblige(st, tag+":modifies", "refinement", "implementation modifies abstract state the interface contract does not mention: "+strings.Join(extra, ", "), "false")
+	}
+	for _, k := range sortedKeys(kT) {
+		x.havocKey(st, k)
+	}
+	res := x.resultVal(st, sig, "r.impl")
+	rT := map[string]Val{}
+	for k, v := range nT {
+		rT[k] = v
+	}
+	bindResults(rT, res, sig, fn)
+	envT2 := &Env{x: x, st: st, names: rT, cur: st.H, old: old, tctx: tctxT, entryNames: nT, alloc: allocBefore}
+	for _, c := range specT.Ensures {
+		st.assume(x.evalBool(envT2, c.E))
+	}
+	rI := map[string]Val{}
+	for k, v := range nI {
+		rI[k] = v
+	}
+	bindResults(rI, res, types.NewSignatureType(nil, nil, nil, sig.Params(), unnamedResults(sig.Results()), sig.Variadic()), nil)
+	envI2 := &Env{x: x, st: st, names: rI, cur: st.H, old: old, tctx: tctxI, entryNames: nI, alloc: allocBefore}
+	for _, c := range specI.Ensures {
+		x.oblige(st, tag+":post:"+c.Label, "refinement", c.Src, x.evalBool(envI2, c.E))
+	}
+}
+
+func unnamedResults(t *types.Tuple) *types.Tuple {
+	var vs []*types.Var
+	for i := 0; i < t.Len(); i++ {
+		vs = append(vs, types.NewVar(0, nil, "", t.At(i).Type()))
+	}
+	return types.NewTuple(vs...)
+}
